@@ -5,6 +5,7 @@ import (
 	"math/rand"
 	"sort"
 	"strings"
+	"time"
 
 	meshconfig "istio.io/api/mesh/v1alpha1"
 	endpoint "github.com/envoyproxy/go-control-plane/envoy/config/endpoint/v3"
@@ -40,6 +41,8 @@ type seqEnv struct {
 	f   *vh.F
 	srv *xdsfake.FakeDiscoveryServer
 	px  map[string]*model.Proxy
+	// assignments the generator took from the endpoint cache (as reported by the generator itself)
+	fromCache int
 }
 
 func newSeqEnv() *seqEnv {
@@ -122,11 +125,15 @@ func (e *seqEnv) generate(p proxySpec, s svcSpec) map[string]string {
 	for cn := range clustersOf(s) {
 		names.Insert(cn)
 	}
-	gen := e.srv.Discovery.Generators[v3.EndpointType]
-	res, _, err := gen.Generate(e.px[p.name], &model.WatchedResource{TypeUrl: v3.EndpointType, ResourceNames: names},
-		&model.PushRequest{Forced: true, Push: e.srv.PushContext()})
+	gen := prodEDSGenerator(e.srv) // shares the index's cache, as in istiod (see gen.go)
+	// Start is only the cache token (the endpoint cache stores nothing for a request without a start time)
+	res, logd, err := gen.Generate(e.px[p.name], &model.WatchedResource{TypeUrl: v3.EndpointType, ResourceNames: names},
+		&model.PushRequest{Forced: true, Push: e.srv.PushContext(), Start: time.Now()})
 	if err != nil {
 		vh.Abort("eds generate: %v", err)
+	}
+	if nCached, _, ok := cachedOf(logd); ok {
+		e.fromCache += nCached
 	}
 	out := map[string]string{}
 	for _, rsc := range res {
@@ -336,6 +343,8 @@ func runSeq(c *vh.Ctx) {
 					}
 				}
 			}
+			c.Count("seq_generator_assignments_from_cache", env.fromCache)
+			env.fromCache = 0
 			if changedServed > 0 && noPushSeen > 0 {
 				c.Nontrivial(vh.Hash("seq", i, trace))
 			}
